@@ -4,9 +4,9 @@ import "strings"
 
 func init() {
 	register(propSpec{
-		ID: "C12",
+		ID:          "C12",
 		Explanation: "Decided on a symbolic AST of every go/ast statement kind (with all optional parts present/absent): the statement rewriter is abstractly evaluated with its recursion into nested statement lists as boundary events and the yield-freeness predicates as two-valued oracles. RW.DISPATCH: kinds the README lists as unsupported (select, labels, defer, goto, stray clauses) are rejected on every path, supported kinds have an accepting path. RW.FIELDCOV: on every accepting path, each original part that can contain a yield and is still reachable from what is emitted is covered by a yield-freeness test answered true (otherwise a Yield survives as a no-op stub). RW.DEEPVISIT: each nested statement list that reaches the output went through the recursion (so nested unsupported constructs were seen). RW.BRANCHCTX: labelled break/continue, goto and misplaced fallthrough are rejected by the branch pass. RW.SIG: a function is only marked as generator after its signature was checked.",
-		Trusted: []string{"go/ast grammar facts: a for/if/switch init and a for post are simple statements; switch bodies contain only case clauses", "go/ssa construction"},
+		Trusted:     []string{"go/ast grammar facts: a for/if/switch init and a for post are simple statements; switch bodies contain only case clauses", "go/ssa construction"},
 		Run: func(c *Ctx) {
 			r := newRwRT(c)
 			c.guard("RW.DISPATCH", r.ruleCover)
@@ -42,9 +42,9 @@ func init() {
 
 func init() {
 	register(propSpec{
-		ID: "C01",
+		ID:          "C01",
 		Explanation: "Whole-program equivalence of source and compiled generator is not decidable here; decided are the structural facts it rests on, for every path of the code that implements them: RW.KINDTAB (combine / implicit-Normal / yield-freeness decision tables of the block abstraction vs the wording of the property), RW.BRANCHCTX (the break/continue pass driven over every nesting of native contexts up to depth 3 vs the Go spec's target rule), RW.TERM (termination checker vs an independent reference of the spec's 'terminating statements' on ~2000 enumerated shapes: never over-approximates), RW.TMPL.FOR (choice of Loop/While/For and argument roles), RW.SCOPEAGREE (the lowering of every break/continue target agrees with the signal tables extracted from the runtime), and the runtime tables of C08 (SEQ.ROLE/COMBINE/FOR/DELAY/SUSPEND).",
-		Trusted: []string{"Go semantics of closures", "go/ssa construction", "go/ast grammar facts"},
+		Trusted:     []string{"Go semantics of closures", "go/ssa construction", "go/ast grammar facts"},
 		Run: func(c *Ctx) {
 			r := newRwRT(c)
 			c.guard("RW.KINDTAB", r.ruleKindTab)
@@ -108,9 +108,9 @@ func init() {
 
 func init() {
 	register(propSpec{
-		ID: "C03",
+		ID:          "C03",
 		Explanation: "Scoping across suspension is decided as obligations on the syntax the rewriter constructs (templates extracted by abstract interpretation, user syntax as holes): S1 the continuation after a yield is the body of the thunk passed to Bind and is pushed into the enclosing block (later statements stay lexically nested under earlier declarations); S2 statements are only moved to the second half of a Combine after a statement with its own scope (combine table); S3 ':=' initialisers of for/switch/type-switch are hoisted into a fresh block, only inside generators; if-initialisers are never moved; S4 a ':=' range loop keeps its original body as one nested block after the generated binding, with the loop's own token; S5 a yielding for-post is lowered into a thunk of its own; S6 iterator temporaries come from gensym. Go's closure semantics (capture by reference) is trusted.",
-		Trusted: []string{"Go closures capture variables by reference", "go/ssa construction", "go/ast grammar facts"},
+		Trusted:     []string{"Go closures capture variables by reference", "go/ssa construction", "go/ast grammar facts"},
 		Run: func(c *Ctx) {
 			r := newRwRT(c)
 			c.guard("RW.TMPL.BIND", r.ruleTmplBind)
@@ -168,9 +168,9 @@ func init() {
 
 func init() {
 	register(propSpec{
-		ID: "C04",
+		ID:          "C04",
 		Explanation: "Range loops inside generators are decided as (a) the template of the lowered loop for every variable form (key/value omitted, blank, named) x ':=' / '=': `it := seq.NewXIter(x)` inserted before the loop (operand evaluated once, before the first iteration), cond-only `for it.MoveNext()`, key from .Key and value from .Val with the loop's own token, original body nested as one block for ':=', iterator variable from gensym; (b) the dispatch table operand kind -> constructor, cross-checked with the constructor's parameter kind in package seq and with Go's range table; the traversal descends into nested closures; (c) the iterators themselves (C10's inductive rules, re-established in this run). Element-level equality is C10.",
-		Trusted: []string{"reflect / unicode/utf8 contracts", "go/ssa construction", "go/types kinds"},
+		Trusted:     []string{"reflect / unicode/utf8 contracts", "go/ssa construction", "go/types kinds"},
 		Run: func(c *Ctx) {
 			r := newRwRT(c)
 			c.guard("RW.TMPL.RANGE", r.ruleTmplRange)
@@ -192,9 +192,9 @@ func init() {
 		},
 	})
 	register(propSpec{
-		ID: "C05",
+		ID:          "C05",
 		Explanation: "YieldFrom is decided as templates plus pass ordering: rewriteYieldFrom turns YieldFrom(x) into `for v := range x { Yield(v) }` for every form of x (identifier, call, selector, index) with x occurring exactly once as the range operand and a body of exactly one Yield of the loop variable; the consumer lowering evaluates the operand once in the init statement, advances once per iteration in the condition and reads Current once per iteration (no prefetch); in rewriteFile the YieldFrom pass precedes the range-over-iterator pass which precedes the generator pass; following statements run only after the delegate reported exhaustion by the runtime tables SEQ.FOR/SEQ.COMBINE (re-established in this run).",
-		Trusted: []string{"Go semantics of closures", "go/ssa construction"},
+		Trusted:     []string{"Go semantics of closures", "go/ssa construction"},
 		Run: func(c *Ctx) {
 			r := newRwRT(c)
 			c.guard("RW.TMPL.YIELDFROM", r.ruleTmplYieldFrom)
@@ -240,9 +240,9 @@ func init() {
 		},
 	})
 	register(propSpec{
-		ID: "C06",
+		ID:          "C06",
 		Explanation: "Consumer-side loops are decided as the template of rewriteForRange for every operand form and both ':=' and '=': operand exactly once (in the init statement), one MoveNext per iteration in the condition and nothing else (no prefetch: break/continue/return pull nothing further), one Current bound with the loop's own token. The iterator type replacement is decided as: an index expression is replaced iff the iterator-type predicate holds, by seq.Iterator[<same index>] under the file's import name, and the generator's own result type is built the same way; the passes run in the order the lowering relies on. Completeness of the replacement in every syntactic position is a build-time matter and not decided.",
-		Trusted: []string{"go/ssa construction", "astutil.Apply visits every IndexExpr"},
+		Trusted:     []string{"go/ssa construction", "astutil.Apply visits every IndexExpr"},
 		Run: func(c *Ctx) {
 			r := newRwRT(c)
 			c.guard("RW.TMPL.CONSUMER", r.ruleTmplConsumer)
@@ -278,9 +278,9 @@ func init() {
 
 func init() {
 	register(propSpec{
-		ID: "C07",
+		ID:          "C07",
 		Explanation: "The optimiser is decided from the source of its two passes. OPT.WHITELIST/OPT.BINDLIT: the Delay-elision pattern is recovered as a term tree (the pattern-combinator library is interpreted as term constructors); every callee under which a Delay is elided unconditionally must be certified by the analysis of package seq in the same run (all parameters function/Seq-typed, calling it only allocates a closure), a callee with a value parameter (Bind) only with that position restricted to basic literals; the thunk must consist of the single return. OPT.ETA: the callback of etaReduction is abstractly evaluated on 26 closure shapes x callee classes; it may replace the closure only where that is meaning-preserving (arguments forwarded in order, variadic spread kept, identical types, callee a declared function / explicitly instantiated generic / method value on a rewriter-generated iterator variable). OPT.ORDER: imports are cleaned before a file is printed, files not using seq are not written. Not decided: the go-imports dependency; timing of effects inside user expressions.",
-		Trusted: []string{"semantics of the go-matcher pattern combinators (BasicLitPattern matches only *ast.BasicLit)", "go-imports.Clean", "go/ssa construction"},
+		Trusted:     []string{"semantics of the go-matcher pattern combinators (BasicLitPattern matches only *ast.BasicLit)", "go-imports.Clean", "go/ssa construction"},
 		Run: func(c *Ctx) {
 			r := newRwRT(c)
 			s := newSeqRT(c)
@@ -315,9 +315,9 @@ func init() {
 
 func init() {
 	register(propSpec{
-		ID: "C13",
+		ID:          "C13",
 		Explanation: "Bystander code is decided as: RW.MUTGUARD — every Cursor.Replace/Insert/Delete call site of package rewriter is enumerated; the five file-level callbacks are abstractly evaluated on 15 node kinds and may edit only on paths where a generator / iterator-type / Yield-call predicate answered true; all other sites are reachable only through rewriteYieldFunc or an optimiser callback. OPT.ETA — the only pass that rewrites arbitrary closures: 26 closure shapes x callee classes (function variable, builtin, conversion, method value, generic function, swapped/duplicated arguments, differing types, variadic spread) must be kept. RW.TMPL.RETURN / RW.TMPL.HOIST — returns and initialisers inside ordinary closures nested in a generator are left alone. RW.BRANCHCTX — a function literal is a boundary for break/continue/goto rewriting. RW.NODECL — no declaration is added or the declaration list rewritten. Not decided: loss of free-floating comments (behaviour-neutral except for //go: directives inside co files).",
-		Trusted: []string{"go-imports.Clean", "go/ssa construction", "pattern combinator semantics"},
+		Trusted:     []string{"go-imports.Clean", "go/ssa construction", "pattern combinator semantics"},
 		Run: func(c *Ctx) {
 			r := newRwRT(c)
 			c.guard("RW.MUTGUARD", r.ruleMutGuard)
@@ -360,9 +360,9 @@ func init() {
 		},
 	})
 	register(propSpec{
-		ID: "C02",
+		ID:          "C02",
 		Explanation: "Demand-driven execution is decided as the structural reasons nothing runs early or twice. Runtime: every constructor of package seq runs nothing when called (SEQ.LAZY); Bind/BindRecv store the step and return without calling the thunk or the continuation (SEQ.SUSPEND); a resumption runs the thunk once inside the call and takes-and-clears the pending step (SEQ.TAKE); Start runs nothing and its first advance starts the Seq (SEQ.START); Combine starts its second half only from the continuation of the first (SEQ.COMBINE); exhaustion is absorbing with no generator code run (SEQ.GEN). Rewriter: the generator body becomes exactly `return Start(Delay(func(){...}))` (RW.TMPL.YIELDFUNC); the statements after a yield are the body of the thunk passed to Bind and the yielded expression is its unwrapped first argument (RW.TMPL.BIND); loop conditions/posts are wrapped in function literals and bodies in Delay thunks (RW.TMPL.FOR), both halves of a Combine are thunks. Optimiser: a Delay is elided only around certified effect-free constructors or Bind with a basic literal (OPT.WHITELIST/OPT.BINDLIT). Not decided: relative timing of effects inside one user expression (Go evaluation order).",
-		Trusted: []string{"Go evaluation order inside an expression", "go/ssa construction", "pattern combinator semantics"},
+		Trusted:     []string{"Go evaluation order inside an expression", "go/ssa construction", "pattern combinator semantics"},
 		Run: func(c *Ctx) {
 			r := newRwRT(c)
 			s := newSeqRT(c)
@@ -420,9 +420,9 @@ func init() {
 
 func init() {
 	register(propSpec{
-		ID: "C11",
+		ID:          "C11",
 		Explanation: "'The output builds for every accepted program' is not decidable here; decided are the classes of compiler panics and ill-formed output the property names, over symbolic ASTs of every supported statement kind with every optional part present/absent: RW.DISPATCH (every supported kind has an accepting path), RW.FACTORY (the AST factory never panics, e.g. on the nil tag of a tag-less switch), RW.EXH/RW.TERM (the termination checker is total and never over-approximates on ~2000 shapes, incl. unlabelled break in trailing native loops/switches), RW.KINDTAB (block tables defined for every block kind that becomes a thunk body), RW.CLOSE (every statement list wrapped into a thunk is closed with a final return on its path; the list contract closes the block that is actually open), RW.TMPL.FOR (no nil node in a loop call's arguments), RW.BRANCHCTX (break/continue/goto in nested closures stay native: select is a break target), OPT.ETA (closures over builtins, conversions, generic functions, differing types are kept), RW.IMPORT / OPT.ORDER (seq is referred to under the name it is imported under; imports cleaned before printing), RW.TMPL.CONSUMER and RW.RANGEDISPATCH (recorded build-breaking findings D15, D16, D21).",
-		Trusted: []string{"go/printer, go/packages", "go-imports", "go/ssa construction", "go/ast grammar facts"},
+		Trusted:     []string{"go/printer, go/packages", "go-imports", "go/ssa construction", "go/ast grammar facts"},
 		Run: func(c *Ctx) {
 			r := newRwRT(c)
 			c.guard("RW.DISPATCH", r.ruleCover)
@@ -482,9 +482,9 @@ func init() {
 
 func init() {
 	register(propSpec{
-		ID: "C15",
+		ID:          "C15",
 		Explanation: "Determinism is decided as the absence of every source of run-to-run or context dependence in the output path: DET.MAPRANGE (no range over a map anywhere in package rewriter / cmd/cogen), DET.SOURCES (no call into time, math/rand, crypto/rand, os.Getpid/Hostname/MkdirTemp/Getenv), RW.FILEPASSES (import names, generator sets and collected comments are re-initialised for every file before the first pass; passes in fixed order), DET.GENSYM (the unique-name counter advances by one per temporary, names use the new value, and the counter lives in an object allocated once per file or is reset per file), DET.TMP (the intermediate directory is emptied before use and its removal deferred, so outputs of earlier runs cannot reach the result), RW.TMPL.RANGE (iterator temporaries come from gensym). File order from the loader and go/printer are trusted.",
-		Trusted: []string{"go/packages file order", "go/printer", "go/ssa construction"},
+		Trusted:     []string{"go/packages file order", "go/printer", "go/ssa construction"},
 		Run: func(c *Ctx) {
 			r := newRwRT(c)
 			c.guard("DET.MAPRANGE", func() { ruleDetScan(c) })
@@ -517,9 +517,9 @@ func init() {
 		},
 	})
 	register(propSpec{
-		ID: "C16",
+		ID:          "C16",
 		Explanation: "go:generate mode is decided as necessary conditions read from GoGen / cmd/cogen by abstract interpretation with constant folding of the string functions involved: GEN.HEADER (the header constant is `//go:build !<tag>`, blank line, a line matching Go's generated-code convention; parsed with go/build/constraint), GEN.TAG (the tag given to the rewrite-stage loader is the tag the header negates), GEN.FILTER (exactly *_<suffix>.go and *_<suffix>_test.go are processed: 7 names), GEN.NAME (both printers evaluated on 5 paths incl. base names and directories containing '_co': exactly the sibling with the suffix removed is written, via the intermediate directory), DET.TMP (intermediate directory emptied before and removed after, on every exit), OPT.ORDER (a rewritten file that does not use seq is not written), GEN.ENV (cogen runs GoGen on the working directory only when GOFILE is set). Not decided: that the package builds and its tests pass afterwards, byte-idempotence of a second run, the exact directory contents — these quantify over file-system states and toolchain behaviour.",
-		Trusted: []string{"go-loader file filter / build tag options", "go/ssa construction", "os and path/filepath"},
+		Trusted:     []string{"go-loader file filter / build tag options", "go/ssa construction", "os and path/filepath"},
 		Run: func(c *Ctx) {
 			r := newRwRT(c)
 			c.guard("GEN.HEADER", r.ruleGenHeader)
